@@ -802,7 +802,7 @@ class WorldGen:
         st["vec_results"] = [x for x in st["vec_results"] if x[0] != ri]
         slot = 50 + len(st.setdefault("mutres_slots", []))
         st["mutres_slots"].append(slot)
-        first = {"f": "vecsim.lit", "a": [R(ri)], "defm": slot}
+        first = {"f": "vecsim.own", "a": [R(ri)] + [P(j_) for j_ in d.get("operands", [])], "defm": slot}
         names = C.names_of(d["sys"]) if d.get("sys") else ["x"]
         w = r.choice(("imul", "setcol", "iadd"))
         if w == "imul":
@@ -951,7 +951,8 @@ class WorldGen:
                             (f in (".to_Vector2D", ".to_2D") and dj.dim > 2) or (f in (".to_Vector3D", ".to_3D") and dj.dim != 3) or \
                             (f in (".to_Vector4D", ".to_4D") and dj.dim != 4)
                         if fresh and dj.be == "np":
-                            st.setdefault("fresh_results", []).append((len(prog) - 1, {"sys": None}))
+                            st.setdefault("fresh_results", []).append(
+                                (len(prog) - 1, {"sys": None, "operands": [v_ for t_, v_ in __import__("vecsim.ops", fromlist=["x"]).op_refs(op) if t_ == "p"]}))
             progs.append(prog)
         return progs
 
